@@ -321,7 +321,7 @@ func (g *TGen) lit(t TType) *Node {
 		n := rapid.SampledFrom([]int{0, 1, 2, 3, 4, 7, 8, 9, 10, 12}).Draw(g.t, "alen")
 		els := make([]*Node, n)
 		for i := range els {
-			els[i] = Int(int64(g.intn(10, "el")))
+			els[i] = g.element("el")
 		}
 		return Array(els...)
 	case TMap:
@@ -329,11 +329,22 @@ func (g *TGen) lit(t TType) *Node {
 		keys := []string{"k", "a", "b", "c", "d", "e", "f"}
 		var kvs []*Node
 		for i := 0; i < n; i++ {
-			kvs = append(kvs, Str(keys[i]), Int(int64(g.intn(10, "mv"))))
+			kvs = append(kvs, Str(keys[i]), g.element("mv"))
 		}
 		return Map(kvs...)
 	}
 	return Nil()
+}
+
+// element of a container literal: a small integer, sometimes the current value of an integer variable
+// (a parameter or loop variable: what the literal holds must be the value, not the variable).
+func (g *TGen) element(label string) *Node {
+	if g.chance(5, label+"var") {
+		if v := g.pickVar(TInt); v != nil {
+			return v
+		}
+	}
+	return Int(int64(g.intn(10, label)))
 }
 
 func (g *TGen) callable(ret TType) []*FSig {
